@@ -128,6 +128,36 @@ var failClasses = []failClass{
 		s.Spec.Headers = map[string]interface{}{"kid": "key-1"}
 		s.Facts.ParseOK = false
 	}},
+	{"alg-case-variant", "urd", func(h *histCtx, s *opStep) {
+		// algorithm names are case-sensitive: "es256" / "eddsa" are not in the allowed list
+		a := s.Spec.Signer.Alg()
+		v := strings.ToLower(a)
+		if h.r.Bool() {
+			v = a[:1] + strings.ToLower(a[1:])
+		}
+		s.Spec.Headers = map[string]interface{}{"alg": v}
+		s.Facts.ParseOK = false
+	}},
+	{"key-curve-case-variant", "urd", func(h *histCtx, s *opStep) {
+		j := s.Spec.Signer.JWK()
+		j["crv"] = strings.ToLower(fmt.Sprint(j["crv"]))
+		if j["crv"] == s.Spec.Signer.JWK()["crv"] {
+			j["crv"] = strings.ToUpper(fmt.Sprint(j["crv"]))
+		}
+		s.Spec.PayloadKey = j
+		s.Facts.ParseOK = false
+	}},
+	{"key-rsa-without-curve", "urd", func(h *histCtx, s *opStep) {
+		// an RSA key passes the JWK shape check but has no (allowed) curve
+		s.Spec.PayloadKey = map[string]interface{}{"kty": "RSA", "n": oracle.B64(h.r.Bytes(256)), "e": "AQAB"}
+		s.Facts.ParseOK = false
+	}},
+	{"key-kty-missing", "urd", func(h *histCtx, s *opStep) {
+		j := s.Spec.Signer.JWK()
+		delete(j, "kty")
+		s.Spec.PayloadKey = j
+		s.Facts.ParseOK = false
+	}},
 	{"key-curve-not-allowed", "urd", func(h *histCtx, s *opStep) {
 		s.Spec.Signer = gen.NewKey(h.r, gen.P521)
 		s.Spec.Headers = map[string]interface{}{"alg": "ES256"}
@@ -240,6 +270,41 @@ var failClasses = []failClass{
 			keys = append(keys, gen.DocKey(h.r, fmt.Sprintf("bulk%d", i), gen.TJwk2020, []string{"authentication"}, "jwk"))
 		}
 		s.Spec.Patches = []interface{}{map[string]interface{}{"action": "add-public-keys", "publicKeys": keys}}
+		s.Facts.Patches = s.Spec.Patches
+		s.Facts.DeltaValid = false
+	}},
+	{"delta-exactly-at-size-limit (valid)", "cur", func(h *histCtx, s *opStep) {
+		// a delta whose canonical form is exactly MaxDeltaSize bytes is within the limit: everything stays valid
+		mk := func(n int) []interface{} {
+			return []interface{}{gen.PAddAka("did:example:" + strings.Repeat("a", n)), gen.PAddKeys(gen.DocKey(h.r, "sizekey", gen.TJwk2020, []string{"authentication"}, "b58jwk"))}
+		}
+		key := gen.DocKey(h.r, "sizekey", gen.TJwk2020, []string{"authentication"}, "jwk")
+		build := func(n int) []interface{} {
+			return []interface{}{gen.PAddAka("did:example:" + strings.Repeat("a", n)), gen.PAddKeys(key)}
+		}
+		_ = mk
+		size := func(ps []interface{}) int {
+			return len(oracle.MustJCS(map[string]interface{}{"updateCommitment": s.Spec.UpdateCommitment, "patches": ps}))
+		}
+		base := size(build(0))
+		pad := int(h.proto.MaxDeltaSize) - base
+		if pad < 0 {
+			return // configuration too small for this class: leave the operation as it is (still valid)
+		}
+		s.Spec.Patches = build(pad)
+		s.Facts.Patches = s.Spec.Patches
+	}},
+	{"delta-one-byte-over-size-limit", "cur", func(h *histCtx, s *opStep) {
+		key := gen.DocKey(h.r, "sizekey", gen.TJwk2020, []string{"authentication"}, "jwk")
+		build := func(n int) []interface{} {
+			return []interface{}{gen.PAddAka("did:example:" + strings.Repeat("a", n)), gen.PAddKeys(key)}
+		}
+		base := len(oracle.MustJCS(map[string]interface{}{"updateCommitment": s.Spec.UpdateCommitment, "patches": build(0)}))
+		pad := int(h.proto.MaxDeltaSize) - base + 1
+		if pad < 0 {
+			pad = 0
+		}
+		s.Spec.Patches = build(pad)
 		s.Facts.Patches = s.Spec.Patches
 		s.Facts.DeltaValid = false
 	}},
